@@ -11,6 +11,7 @@ import (
 	"github.com/inbucket/inbucket/v3/pkg/extension"
 	"github.com/inbucket/inbucket/v3/pkg/message"
 	"github.com/inbucket/inbucket/v3/pkg/storage"
+	"github.com/inbucket/inbucket/v3/pkg/verifhook"
 )
 
 // Store implements an in-memory message store.
@@ -83,6 +84,7 @@ func (s *Store) AddMessage(message storage.Message) (id string, err error) {
 		m.id = id
 		m.source = source
 		mb.messages[id] = m
+		verifhook.Point("mem.add.visible", id)
 
 		if s.cap > 0 {
 			// Enforce cap.
@@ -101,6 +103,7 @@ func (s *Store) AddMessage(message storage.Message) (id string, err error) {
 		s.enforcerRemove(old)
 		s.emitDeleted(old)
 	}
+	verifhook.Point("mem.add.register", id)
 	s.enforcerDeliver(m)
 	return id, err
 }
@@ -169,6 +172,7 @@ func (s *Store) PurgeMessages(mailbox string) error {
 		messages = mb.messages
 		mb.messages = make(map[string]*Message)
 	})
+	verifhook.Point("mem.purge.swapped", mailbox)
 
 	// Process size/quota.
 	if s.remove != nil {
@@ -245,6 +249,7 @@ func (s *Store) withMailbox(mailbox string, writeLock bool, f func(mb *mbox)) {
 		s.boxes[mailbox] = mb
 	}
 	s.Unlock()
+	verifhook.Point("mem.wm.lock", mailbox)
 	if writeLock {
 		mb.Lock()
 	} else {
